@@ -75,6 +75,13 @@ private:
 
     void initialize()
     {
+        // guard from errors in the following functions: the jump buffer set up while the
+        // header was read belongs to a function that has returned
+        if (setjmp( png_jmpbuf( this->get_struct() )))
+        {
+            io_error("png is invalid");
+        }
+
         // Now it's time for some transformations.
 
         if( little_endian() )
@@ -154,6 +161,12 @@ private:
 
     void read_scanline( byte_t* dst )
     {
+        // guard from errors in png_read_row (see initialize)
+        if (setjmp( png_jmpbuf( this->get_struct() )))
+        {
+            io_error("png is invalid");
+        }
+
         png_read_row( this->get()->_struct
                     , dst
                     , NULL
